@@ -288,6 +288,9 @@ def build_handler(prog: dict, rec: Recorder):
                 nfail = node.get("fail", 0)
                 if nfail == -1 or attempt <= nfail:
                     rec.fn_exit(path, False)
+                    if node.get("errmsg") is not None:
+                        # an exception with a given (possibly empty) message: `raise ValueError` / `raise ValueError("")`
+                        raise ERR_TYPES[node.get("errtype", "UserError")](*([node["errmsg"]] if node["errmsg"] != "<none>" else []))
                     raise ERR_TYPES[node.get("errtype", "UserError")](f"fail {path} a{attempt}")
                 v = value_for(node, path, attempt)
                 rec.fn_exit(path, True)
@@ -346,6 +349,9 @@ def build_handler(prog: dict, rec: Recorder):
                 cont = attempt < stop_at
                 rec.strategy_calls.setdefault(path, []).append((rec.inv, attempt, cont, delay))
                 rec.log("WaitStrategyCall", path=path, attempt=attempt, cont=cont, delay=delay)
+                if cont and node.get("raw_decision"):
+                    # a strategy that builds the decision itself instead of going through the factory
+                    return WaitForConditionDecision(should_continue=True, delay=Duration(seconds=delay))
                 if cont:
                     return WaitForConditionDecision.continue_waiting(Duration(seconds=delay))
                 return WaitForConditionDecision.stop_polling()
